@@ -3,6 +3,8 @@ import math
 import re
 from fractions import Fraction
 
+import sys
+
 import numpy as np
 
 from .. import common, gen_all, gen_formulas
@@ -287,7 +289,7 @@ def check(run):
 def replay(rec):
     pl = rec.get("payload") or {}
     if pl.get("kind") != "point":
-        return True
+        return common.replay_by_rerun(sys.modules[__name__], rec)
     import importlib
     modname = dict(gen_formulas.SHIPPED)[pl["model"]]
     mod = importlib.import_module("nanite.model." + modname)
